@@ -8,6 +8,7 @@
 #include <dlfcn.h>
 #include <sys/mman.h>
 #include <unistd.h>
+#include <sys/resource.h>
 #include <sys/wait.h>
 #include "hist_fault_ops.hh"
 
@@ -318,6 +319,7 @@ struct FrozenWorld : World {
         pid_t pid = fork();
         if (pid == 0) {
             close(fd[0]); close(fe[0]); dup2(fe[1], 2);
+            { struct rlimit rl; rl.rlim_cur = rl.rlim_max = 120; setrlimit(RLIMIT_CPU, &rl); }   // a spinning const query dies by SIGXCPU (CPU time: robust against machine load)
             RunResult r = dispatch(p);
             std::ostringstream o;
             o << (r.violation ? "V" : r.inconclusive ? "I" : "O") << "\n" << std::hex << r.loghash << std::dec << "\n" << r.at_op << "\n" << r.cls << "\n" << r.detail << "\n";
